@@ -29,7 +29,7 @@ COMPONENTS = {
     "stub": ["GPU hardware (Numba CUDASIM)"],
 }
 ASSUMPTIONS = [
-    "gain law asserted at every bin whose relative rounding bound rel = 64 eps max(L,8)^2 S/|X| (S ~ sum|w| * 2 max|x|) is <= 2.5e-3, i.e. also at bins > 150 dB below the strongest one, with tolerance |g|*(1e-9 + rel); coherence with 1e-9 + 4 rel",
+    "gain law asserted at every bin whose relative rounding bound rel = 16 eps max(L,8)^2 S/|X| (S ~ sum|w| * 2 max|x|) is <= 0.25, i.e. also at bins > 150 dB below the strongest one, with tolerance |g|*(1e-9 + rel); coherence with 1e-9 + 4 rel",
     "delay law asserted only at bins with omega*d mod pi in [0.5, pi-0.5] where the longdouble reference estimator on the same plan is itself within 0.25 rad / 25% of exp(-i omega d) (edge effect d/L can move single bins by up to ~0.9 rad)",
     "cross-world agreement of Hxy within the rounding budget relative to XX",
 ]
@@ -192,12 +192,12 @@ def _execute_stage(sc, out, buf, stage):
             S = S_est[j]
             if law == "gain":
                 # the law is asserted wherever the bin stands clear of the rounding noise of the recurrence:
-                # relative rounding error of X is bounded by 64 eps max(L,8)^2 S/|X| (>= 1000x above the worst observed)
+                # relative rounding error of X is bounded by 16 eps max(L,8)^2 S/|X| (>= 400x above the worst observed)
                 if not xx > 0.0:
                     continue
                 Xabs = np.sqrt(xx)
-                rel = 64 * RM.EPS * max(L, 8) ** 2 * S / Xabs
-                if not rel <= 2.5e-3:
+                rel = 16 * RM.EPS * max(L, 8) ** 2 * S / Xabs
+                if not rel <= 0.25:
                     continue
                 nguard += 1
                 if xx < 1e-12 * S * S:
